@@ -166,7 +166,13 @@ constexpr auto clamp(Quantity<UV, RV> v, Quantity<ULo, RLo> lo, Quantity<UHi, RH
     using U = CommonUnitT<UV, ULo, UHi>;
     using R = std::common_type_t<RV, RLo, RHi>;
     using ResultT = Quantity<U, R>;
-    return (v < lo) ? ResultT{lo} : (hi < v) ? ResultT{hi} : ResultT{v};
+
+    // Compare in the result type: comparing the inputs pairwise would use the common type of just
+    // those two inputs, which may be too narrow to hold the third.
+    const ResultT v_result{v};
+    const ResultT lo_result{lo};
+    const ResultT hi_result{hi};
+    return (v_result < lo_result) ? lo_result : (hi_result < v_result) ? hi_result : v_result;
 }
 
 // Clamp the first point to within the range of the second two.
@@ -177,7 +183,12 @@ constexpr auto clamp(QuantityPoint<UV, RV> v,
     using U = CommonPointUnitT<UV, ULo, UHi>;
     using R = std::common_type_t<RV, RLo, RHi>;
     using ResultT = QuantityPoint<U, R>;
-    return (v < lo) ? ResultT{lo} : (hi < v) ? ResultT{hi} : ResultT{v};
+
+    // Compare in the result type (see the `Quantity` overload above).
+    const ResultT v_result{v};
+    const ResultT lo_result{lo};
+    const ResultT hi_result{hi};
+    return (v_result < lo_result) ? lo_result : (hi_result < v_result) ? hi_result : v_result;
 }
 
 template <typename U1, typename R1, typename U2, typename R2>
